@@ -24,7 +24,21 @@ impl<'de> Deserialize<'de> for RoomMessageEventContent {
 
         let MentionsDeHelper { mentions } = from_raw_json_value(&json)?;
 
-        Ok(Self { msgtype: from_raw_json_value(&json)?, relates_to, mentions })
+        let mut msgtype: MessageType = from_raw_json_value(&json)?;
+
+        // A custom message type keeps all the unknown fields, remove those that are serialized by
+        // the other fields of this struct so that they are not written twice.
+        if let MessageType::_Custom(custom) = &mut msgtype {
+            if relates_to.is_some() {
+                custom.data.remove("m.relates_to");
+                custom.data.remove("m.new_content");
+            }
+            if mentions.is_some() {
+                custom.data.remove("m.mentions");
+            }
+        }
+
+        Ok(Self { msgtype, relates_to, mentions })
     }
 }
 
@@ -37,7 +51,16 @@ impl<'de> Deserialize<'de> for RoomMessageEventContentWithoutRelation {
 
         let MentionsDeHelper { mentions } = from_raw_json_value(&json)?;
 
-        Ok(Self { msgtype: from_raw_json_value(&json)?, mentions })
+        let mut msgtype: MessageType = from_raw_json_value(&json)?;
+
+        // See the comment in the implementation for `RoomMessageEventContent`.
+        if let MessageType::_Custom(custom) = &mut msgtype {
+            if mentions.is_some() {
+                custom.data.remove("m.mentions");
+            }
+        }
+
+        Ok(Self { msgtype, mentions })
     }
 }
 
